@@ -400,3 +400,55 @@ Proof.
   - cbn [snd]. rewrite (content_header_emissions i o), app_nil_r by assumption. reflexivity.
   - cbn [snd]. rewrite (content_header_emissions i o), app_nil_r by assumption. reflexivity.
 Qed.
+
+(* ---------- chunk-by-chunk flushing of a streamed upload ---------- *)
+From ReqV Require Import Model.C13Run.
+
+Definition stream_req : h1_request :=
+  mkH1Req [bs "POST /up HTTP/1.1" ++ crlf ++ bs "Transfer-Encoding: chunked" ++ crlf ++ crlf]
+          (Some [bs "part one"; bs "part two"]) true false.
+
+(* the version that makes the *bufio.Writer assertion on the body-dump-wrapped writer flushes the
+   chunks only when no request-body dumper is installed: turning the dump on changes WHEN the
+   bytes leave (here: how often the connection is flushed) *)
+Lemma chunk_flush_wrapped_not_transparent :
+  sr_state (fst (h1_send_f_wrapped count_flush [(0, opts_all 7%N)] count_w ([], 0) stream_req)) <>
+  sr_state (h1_send_plain_f count_flush count_w ([], 0) stream_req).
+Proof. vm_compute. discriminate. Qed.
+
+(* over a healthy connection every non-empty chunk of a streamed upload is followed by a Flush,
+   whatever dumpers are installed *)
+Definition chunk_frame (p : bytes) : bytes := hex_of_N (N.of_nat (length p)) ++ crlf ++ p ++ crlf.
+
+Lemma chunked_count_step s k x p :
+  chunked_writer_f count_flush count_w (s, k) (x :: p) =
+  ((s ++ chunk_frame (x :: p), S k), length (x :: p), false).
+Proof.
+  unfold chunked_writer_f, count_w, count_flush, chunk_frame. cbn [fst snd].
+  rewrite Nat.eqb_refl. cbn [negb fst snd]. rewrite <- !app_assoc. reflexivity.
+Qed.
+
+Lemma write_all_chunked_count cs s k :
+  write_all (chunked_writer_f count_flush count_w) (s, k) cs =
+  ((s ++ concat (map chunk_frame (filter nonempty cs)), k + length (filter nonempty cs)), false).
+Proof.
+  revert s k. induction cs as [|p r IH]; intros s k; cbn [write_all filter map concat length].
+  - now rewrite app_nil_r, Nat.add_0_r.
+  - destruct p as [|x p].
+    + change (nonempty []) with false. cbn iota. change (chunked_writer_f count_flush count_w (s, k) []) with ((s, k), 0, false).
+      cbn iota. apply IH.
+    + change (nonempty (x :: p)) with true. cbn iota. rewrite chunked_count_step. cbn iota.
+      rewrite IH. cbn [map concat length]. rewrite <- app_assoc, Nat.add_succ_r. reflexivity.
+Qed.
+
+Theorem h1_streamed_upload_flushes_every_chunk ds hw chunks :
+  let sr := fst (h1_send_f count_flush ds count_w ([], 0) (mkH1Req hw (Some chunks) true false)) in
+  sr_failed sr = false /\ snd (sr_state sr) = length (filter nonempty chunks).
+Proof.
+  cbv zeta. rewrite h1_send_f_transparent. unfold h1_send_plain_f.
+  cbn [q_header_writes q_body q_chunked q_expect_continue].
+  assert (W : forall ps s k, write_all count_w (s, k) ps = ((s ++ concat ps, k), false)).
+  { induction ps as [|p r IH]; intros s k; cbn [write_all concat]; [now rewrite app_nil_r|].
+    unfold count_w at 1. cbn [fst snd]. rewrite IH, app_assoc. reflexivity. }
+  rewrite W, write_all_chunked_count, !W. cbn [sr_failed sr_state snd]. split; reflexivity.
+Qed.
